@@ -70,6 +70,29 @@ pub mod verif_hooks {
         static CLOCK: Cell<Option<u32>> = const { Cell::new(None) };
     }
 
+    /// Fault injection: (worker name, panic instead of returning, not before)
+    static FAULT: std::sync::OnceLock<(String, bool, std::time::Instant)> = std::sync::OnceLock::new();
+
+    pub fn set_fault(worker: &str, panic: bool, after: std::time::Duration) {
+        let _ = FAULT.set((worker.to_string(), panic, std::time::Instant::now() + after));
+    }
+
+    /// Called from the main loop of each kind of worker. Panics, or returns
+    /// true when the worker should return, if a fault is due for it.
+    pub fn fault_point(worker: &str) -> bool {
+        if let Some((w, panic, at)) = FAULT.get() {
+            if w == worker && std::time::Instant::now() >= *at {
+                if *panic {
+                    panic!("injected fault in worker {}", worker);
+                }
+
+                return true;
+            }
+        }
+
+        false
+    }
+
     pub fn set_clock(seconds: Option<u32>) {
         CLOCK.with(|c| c.set(seconds))
     }
